@@ -93,21 +93,71 @@ fn main() {
 '''
 
 
+def _tuple_ty(r, tparams):
+    tys = [tparams.get(t, t) for t in r.types]
+    return "(%s%s)" % (", ".join(tys), "," if len(tys) == 1 else "")
+
+
 def prog_module(p):
     """Rust module text for one program"""
-    rels = list(p.relmap.values())
-    body = L.program_rs(p, struct_decl="pub struct Prog;")
-    push_arms, dump_lines = [], []
-    for r in rels:
-        ty = "(%s%s)" % (", ".join(r.types), "," if len(r.types) == 1 else "")
-        if r.ds:
-            continue
-        push_arms.append('"%s" => p.%s.push(parse::<%s>(row)),' % (r.name, r.name, ty))
-        dump_lines.append('dump(&mut out, "%s", &p.%s);' % (r.name, r.name))
+    rels = [r for r in p.relmap.values() if not r.ds]
+    tparams = getattr(p, "type_params", None) or {}
+    main, src = L.program_parts(p, struct_decl=("pub struct Prog;" if p.kind == "ascent" else None))
+    body = "\n   ".join(main)
+    srcmod = ""
+    if src is not None:
+        srcmod = "pub mod srcs { ascent::ascent_source! { part_%s:\n   %s\n   } }" % (p.name, "\n   ".join(src))
     has_timeout = any("generate_run_timeout" in a for a in p.attrs)
     rt = ('ascent::internal::verif_clock::arm(k); let r = p.run_timeout(std::time::Duration::from_nanos(1)); out.push_str(&format!("ret\\t{}\\n", r));'
           if has_timeout else 'let _ = k; panic!("no run_timeout");')
-    macro_name = "ascent"
+    if p.kind == "ascent_run":
+        inrels = [r for r in rels if r.init and r.init.endswith("_in")]
+        params = ", ".join("%s_in: Vec<%s>" % (r.name, _tuple_ty(r, tparams)) for r in inrels)
+        locals_ = "".join("let %s = %s; " % (k, rust_repr(v)) for k, v in (getattr(p, "locals", {}) or {}).items())
+        ret_ty = "(%s,)" % ", ".join("Vec<%s>" % _tuple_ty(r, tparams) for r in rels)
+        ret = "(%s,)" % ", ".join("__res.%s" % r.name for r in rels)
+        decl = "".join("let mut %s_in: Vec<%s> = vec![]; " % (r.name, _tuple_ty(r, tparams)) for r in inrels)
+        push = " ".join('"%s" => %s_in.push(parse::<%s>(row)),' % (r.name, r.name, _tuple_ty(r, tparams)) for r in inrels)
+        call = "run_prog(%s)" % ", ".join("%s_in.clone()" % r.name for r in inrels)
+        dump = " ".join('dump(&mut out, "%s", &res.%d);' % (r.name, i) for i, r in enumerate(rels))
+        return '''
+pub mod %(name)s {
+   #![allow(unused_imports, unused_variables, unused_mut, dead_code, unused_parens)]
+   use ascent::*;
+   use ascent::aggregators::*;
+   use crate::vals::*;
+   %(prelude)s
+   %(srcmod)s
+   pub fn run_prog(%(params)s) -> %(ret_ty)s {
+      %(locals)s
+      let __res = ascent_run! {
+   %(body)s
+      };
+      %(ret)s
+   }
+   pub fn exec(script: &[String]) -> String {
+      %(decl)s
+      let mut out = String::new();
+      let mut res = None;
+      for line in script {
+         let (op, rest) = match line.split_once(' ') { Some((a, b)) => (a, b.trim()), None => (line.as_str(), "") };
+         match op {
+            "push" => { let (rel, row) = rest.split_once(' ').unwrap(); match rel { %(push)s _ => panic!("unknown relation") } },
+            "run" => { res = Some(%(call)s); },
+            "dump" => { let res = res.as_ref().unwrap(); out.push_str("--\\n"); %(dump)s },
+            _ => panic!("unknown op"),
+         }
+      }
+      out
+   }
+}
+''' % {"name": p.name, "body": body, "params": params, "locals": locals_, "ret_ty": ret_ty, "ret": ret, "decl": decl, "push": push,
+       "call": call, "dump": dump, "prelude": p.prelude, "srcmod": srcmod}
+    push_arms, dump_lines = [], []
+    for r in rels:
+        push_arms.append('"%s" => p.%s.push(parse::<%s>(row)),' % (r.name, r.name, _tuple_ty(r, tparams)))
+        dump_lines.append('dump(&mut out, "%s", &p.%s);' % (r.name, r.name))
+    ctor = "Prog::<%s>::default()" % ", ".join(tparams.values()) if tparams else "Prog::default()"
     return '''
 pub mod %(name)s {
    #![allow(unused_imports, unused_variables, unused_mut, dead_code, unused_parens)]
@@ -115,11 +165,12 @@ pub mod %(name)s {
    use ascent::aggregators::*;
    use crate::vals::*;
    %(prelude)s
-   %(macro)s! {
+   %(srcmod)s
+   ascent! {
    %(body)s
    }
    pub fn exec(script: &[String]) -> String {
-      let mut p = Prog::default();
+      let mut p = %(ctor)s;
       let mut out = String::new();
       for line in script {
          let (op, rest) = match line.split_once(' ') { Some((a, b)) => (a, b.trim()), None => (line.as_str(), "") };
@@ -134,8 +185,8 @@ pub mod %(name)s {
       out
    }
 }
-''' % {"name": p.name, "macro": macro_name, "body": body, "push": " ".join(push_arms), "dump": " ".join(dump_lines),
-       "rt": rt, "prelude": p.prelude}
+''' % {"name": p.name, "body": body, "push": " ".join(push_arms), "dump": " ".join(dump_lines),
+       "rt": rt, "prelude": p.prelude, "srcmod": srcmod, "ctor": ctor}
 
 
 def crate_text(progs):
